@@ -139,6 +139,25 @@ func progressBump() { progress++ }
 
 func toolchain() string { return runtime.Version() }
 
+// nHotSites is the number of yield sites that follow a synchronisation
+// operation in the instrumented library (0 on a tree without any).
+var nHotSites int
+
+// loadHotSites reads the list written by simctl ($GEOSIM_HOT). Call after
+// verifsim.SetSites.
+func loadHotSites() {
+	p := os.Getenv("GEOSIM_HOT")
+	if p == "" {
+		return
+	}
+	var ids []int
+	if err := readJSONFile(p, &ids); err != nil {
+		return
+	}
+	nHotSites = len(ids)
+	verifsim.SetHotSites(ids)
+}
+
 func cmdBatch(args []string) int {
 	fs := flag.NewFlagSet("batch", flag.ExitOnError)
 	seed := fs.Uint64("seed", 1, "check seed")
@@ -159,6 +178,7 @@ func cmdBatch(args []string) int {
 		*tag = fmt.Sprint(*worker)
 	}
 	verifsim.SetSites(*nsites)
+	loadHotSites()
 	rl := newRaceLog()
 	rep := newReport()
 	rep.Worker, rep.Seed, rep.Tier, rep.FirstRun = *worker, *seed, *tier, *firstRun
@@ -295,6 +315,7 @@ func cmdReplay(args []string) int {
 		return 2
 	}
 	verifsim.SetSites(*nsites)
+	loadHotSites()
 	rl := newRaceLog()
 	var out ReplayOutcome
 	for k := 0; k < *repeat; k++ {
@@ -333,6 +354,7 @@ func cmdTrace(args []string) int {
 	nsites := fs.Int("sites", 4096, "number of yield sites")
 	_ = fs.Parse(args)
 	verifsim.SetSites(*nsites)
+	loadHotSites()
 	rl := newRaceLog()
 	for run := *from; run < *from+*n; run++ {
 		spec, rng, fset := genSpec(*seed, *worker, run, *tier)
